@@ -20,7 +20,7 @@
 
 """Error."""
 
-from beartype.typing import Dict, Any, Tuple
+from beartype.typing import Dict, Any, Tuple, Optional, Union
 from typing_extensions import Self
 from lark import UnexpectedInput, UnexpectedCharacters, UnexpectedEOF
 from pathlib import Path
@@ -57,11 +57,20 @@ class Logger:
 
     def __init__(self, sources: Dict[str, str], enable_file_paths: bool = True) -> None:
         self.sources = sources
+        self.sources_by_path: Dict[str, str] = {}
         self.enable_file_paths = enable_file_paths
 
-    def add_source(self, name: str, source: str) -> None:
-        """Register source files."""
+    def add_source(
+        self, name: str, source: str, path: Optional[Union[str, Path]] = None
+    ) -> None:
+        """Register source files.
+
+        Modules in different directories can share a file name, so a source is
+        also registered under its path when the caller knows it.
+        """
         self.sources[name] = source
+        if path is not None:
+            self.sources_by_path[str(Path(path).resolve())] = source
 
     def log_location(self, source: str, line: int) -> str:
         """Log source code location."""
@@ -75,7 +84,10 @@ class Logger:
 
     def log_node(self, node: Any) -> str:
         """Log fcp node."""
-        lines = self.sources[Path(node.meta.filename).name].split("\n")
+        source = self.sources_by_path.get(str(Path(node.meta.filename).resolve()))
+        if source is None:
+            source = self.sources[Path(node.meta.filename).name]
+        lines = source.split("\n")
         return self.log_location(
             lines[node.meta.line - 1],
             node.meta.line,
